@@ -873,8 +873,9 @@ SepPair_SP &SepMatrix::getSepPair(id_type id1, id_type id2) {
             sp = std::make_shared<SepPair>();
             sp->src = id1;
             sp->tgt = id2;
-            sp->flippedRetrieval = false;
         }
+        // The flag describes this retrieval, not the one that created the pair.
+        sp->flippedRetrieval = false;
         return sp;
     } else { // id2 < id1
         SepPair_SP &sp = m_sparseLookup[id2][id1];
@@ -882,8 +883,9 @@ SepPair_SP &SepMatrix::getSepPair(id_type id1, id_type id2) {
             sp = std::make_shared<SepPair>();
             sp->src = id2;
             sp->tgt = id1;
-            sp->flippedRetrieval = true;
         }
+        // The flag describes this retrieval, not the one that created the pair.
+        sp->flippedRetrieval = true;
         return sp;
     }
 }
